@@ -16,7 +16,7 @@ From GV Require Import Base.Prelude Model.Csv Model.RtTypes Model.RtWire Model.R
 (* ---- (1) result classes ---- *)
 Theorem C05_static_returns : forall pf di inherit ms, (exists r, parse_static pf di inherit ms = Ok r) \/ (exists e, parse_static pf di inherit ms = Err e).
 Proof.
-  intros. unfold parse_static, parse_static_gen.
+  intros. unfold parse_static, parse_static_gen, parse_tables_gen.
   repeat match goal with
   | |- context [match open_file ?n ?r ?m with _ => _ end] => destruct (open_file n r m)
   | |- context [let '(_, _) := ?x in _] => destruct x
